@@ -144,6 +144,7 @@ def gen_scenario(rng: random.Random, focus: str = "any") -> dict:
         sc["faults"] = []
         sc["prelaunch"] = False
         sc["keeper_max_keep"] = rng.choice([0, 1, 2, 2])
+        sc["custom_keeper"] = rng.random() < 0.35
         sc["queue_size"] = 3
         cl = []
         for _ in range(rng.randint(2, 6)):
@@ -201,8 +202,15 @@ def gen_scenario(rng: random.Random, focus: str = "any") -> dict:
             cl += [["delay", rng.choice([1.0, 6.0])], ["POST!", "/api/shutdown"]]
         sc["client"] = cl
         sc["save_condition"] = []
-        if rng.random() < 0.3:
+        resumed = False
+        if sc.get("max_uptime") is not None and rng.random() < 0.35:
+            # a run resumed from a checkpoint after some down time: the limit counts the resumed run's own time
+            sc["prelaunch"] = True
+            sc["downtime"] = rng.choice([5.0, 40.0, 3600.0])
+            resumed = True
+        if not resumed and rng.random() < 0.3:
             sc["keeper_max_keep"] = rng.choice([0, 1, 2])
+            sc["custom_keeper"] = rng.random() < 0.5
             sc["save_condition"] = [False] * rng.randint(2, 8) + [True, False, False, True]
             if rng.random() < 0.5:
                 # old checkpoints are moved away by hand while the system runs
